@@ -196,7 +196,7 @@ func ReadTorrent(proxy string, r io.Reader) (*Torrent, error) {
 
 // validComponent returns true if s can be a component of a file path.
 func validComponent(s string) bool {
-	return s != "" && !strings.Contains(s, "/")
+	return s != "" && s != "." && s != ".." && !strings.Contains(s, "/")
 }
 
 // MetadataComplete must be called when a torrent's metadata is complete.
